@@ -7,7 +7,13 @@ from . import shapes as S
 # l: Unlawful (Copy; clone = +1)   k: Unlawful with method clone_mu (^0x80)
 FUNCTIONS = ['<T as ::core::clone::Clone>::clone (educe expansion: struct, enum, union)', '<T as ::core::clone::Clone>::clone_from (educe expansion)',
              'impl ::core::marker::Copy for T (emitted next to Clone)']
-FIELD = {'b': ('Bump', None), 'm': ('Bump', 'clone_m'), 'u': ('u8', None), 'l': ('Unlawful', None), 'k': ('Unlawful', 'clone_mu'), 'v': ('u8', 'clone_m8')}
+FIELD = {'b': ('Bump', None), 'm': ('Bump', 'clone_m'), 'u': ('u8', None), 'l': ('Unlawful', None), 'k': ('Unlawful', 'clone_mu'), 'v': ('u8', 'clone_m8'),
+         'd': ('PhantomData', None)}     # a *user* type named like core's PhantomData (declared in the module): it carries data and is cloned
+USER_PHANTOM = '''#[derive(PartialEq, Debug)]
+pub struct PhantomData(pub u8);
+impl Clone for PhantomData { fn clone(&self) -> Self { PhantomData(self.0.wrapping_add(1)) } }
+impl Sym for PhantomData { fn sym() -> Self { PhantomData(kani::any()) } }
+'''
 
 
 def build(shape, copy=False):
@@ -37,6 +43,8 @@ def expected_field(c, e, bitwise):
         return f'(*{e} ^ 0x80)'
     if c == 'b':
         return f'Bump({e}.0.wrapping_add(1))'
+    if c == 'd':
+        return f'PhantomData({e}.0.wrapping_add(1))'
     if c == 'm':
         return f'Bump({e}.0 ^ 0x80)'
     if c == 'l':
@@ -163,6 +171,8 @@ def gen(tier, seed):
         model.TYPE_WRAP = None
     for sh in [('struct', [('tuple', ['b'] * S.WIDE)]), ('struct', [('named', ['b', 'u'] * 6 + ['b'])]), ('enum', [('unit', []), ('tuple', ['u'] * S.WIDE)])]:
         mods.append(emit(f'm{n:04d}', f'{S.shape_id(sh)}/copy=0/wide', sh, False)); n += 1
+    for sh in [('struct', [('named', ['u', 'd'])]), ('struct', [('tuple', ['d', 'b'])]), ('enum', [('tuple', ['d', 'u']), ('named', ['b', 'd']), ('unit', [])])]:
+        mods.append(emit(f'm{n:04d}', f'{S.shape_id(sh)}/copy=0/field type named PhantomData', sh, False, pre=USER_PHANTOM)); n += 1
     mods.append(union_module(f'm{n:04d}')); n += 1
     mods.append(generic_module(f'm{n:04d}')); n += 1
     decl, anyv, vidx = S.big_enum('Clone')
